@@ -2,7 +2,7 @@
    ServerProofs.v. The end-to-end part of the C09 check starts humphrey_server::server::main with proxy routes whose
    target echoes the request head it received and compares it with Server.forwarded_text on the same configuration text. *)
 From Hv Require Import Prelude Bytes TablesHttp TablesConfig Http Krauss Routing RoutingProofs Blacklist StaticFs Config Proxy
-  HttpReqSpec HttpReqProofs ProxyReqProofs Server ServerProofs.
+  HttpReqSpec HttpReqProofs ProxyReqProofs BytesProofs Server ServerProofs ServerNoPanicProofs.
 Open Scope N_scope.
 
 (* a request is handed to the proxy only when the routing rule (C04) chose a route of type proxy for it, with that route's
@@ -36,6 +36,24 @@ Theorem C09_server_forwards_only_proxied :
     forwarded_bytes ipp fs c p req = Some b -> exists ts m mt, server_response ipp fs c p req = SProxy ts m mt.
 Proof. exact server_forwards_only_proxied. Qed.
 
+(* "never panics": proxy_handler strips the prefix with String::remove(0), once per pattern character before the first '*',
+   which panics on an empty string. On a request the router gave to the route this cannot happen (the matched path has at
+   least as many characters as the pattern's literal prefix), so the hypothesis of C09_server_upstream_sees is always met.
+   Paths and patterns are Rust Strings, hence valid UTF-8. *)
+Theorem C09_server_strip_never_panics :
+  forall ipp fs (c : config) p req ts m mt,
+    utf8 (r_uri req) -> utf8 mt ->
+    server_response ipp fs c p req = SProxy ts m mt ->
+    exists uri', rewrite_uri mt (r_uri req) = Some uri'.
+Proof. exact server_proxy_strip_never_panics. Qed.
+
+Theorem C09_matched_strip_succeeds :
+  forall pat uri : bytes, utf8 pat -> utf8 uri -> wildcard_match (scalars pat) (scalars uri) = true ->
+    drop_chars (literal_prefix_len pat) uri <> None.
+Proof. exact matched_strip_succeeds. Qed.
+
 Print Assumptions C09_server_proxied_by_rule.
+Print Assumptions C09_server_strip_never_panics.
+Print Assumptions C09_matched_strip_succeeds.
 Print Assumptions C09_server_upstream_sees.
 Print Assumptions C09_server_forwards_only_proxied.
